@@ -61,7 +61,12 @@ func TestC14_NestingBound(t *testing.T) {
 			if kind == "readAll" || kind == "writeAll" {
 				// *All links stay immediately completable because everything they need is buffered
 			}
-			chain[i] = link{obj: o.id, kind: kind, size: rapid.IntRange(1, 24).Draw(rt, "size")}
+			size := rapid.IntRange(1, 24).Draw(rt, "size")
+			if o.kind.stream() && rapid.IntRange(0, 7).Draw(rt, "empty") == 0 {
+				// an empty buffer is legal: the operation completes at once (as end-of-file) and must be counted like any other
+				size = 0
+			}
+			chain[i] = link{obj: o.id, kind: kind, size: size}
 		}
 		// prepare: everything every link needs is already in the kernel
 		need := map[int]int{}
@@ -77,11 +82,20 @@ func TestC14_NestingBound(t *testing.T) {
 				dgrams[l.obj] = append(dgrams[l.obj], l.size)
 			}
 		}
+		for _, l := range chain {
+			if l.size == 0 && (l.kind == "read" || l.kind == "readAll") {
+				need[l.obj] += 0
+				if _, ok := need[l.obj]; !ok {
+					need[l.obj] = 0
+				}
+			}
+		}
 		for id, n := range need {
 			o := w.objs[id]
 			if o.kind == kRegFile {
 				continue
 			}
+			n++ // one spare byte keeps the descriptor readable for an empty read that lands on the deferred slot
 			if got := w.peerWrite(o, n); got != n {
 				rt.Fatalf("INFRA: could only buffer %d of %d bytes for %s", got, n, o.name())
 			}
@@ -181,6 +195,13 @@ func TestC14_NestingBound(t *testing.T) {
 			o := p.o
 			if p.calls != 1 {
 				rt.Fatalf("link %d (%s on %s) completed %d times", i, l.kind, o.name(), p.calls)
+			}
+			if l.size == 0 {
+				// an empty read/write reports zero bytes (the library says end-of-file); only exactly-once and nesting matter
+				if p.n != 0 {
+					rt.Fatalf("link %d (empty %s on %s) reported n=%d", i, l.kind, o.name(), p.n)
+				}
+				continue
 			}
 			if p.err != nil {
 				rt.Fatalf("link %d (%s on %s, %s, issued at depth %d) failed with %v although it was immediately completable; chain length %d", i, l.kind, o.name(), p.phase, p.depthAt, p.err, L)
